@@ -66,11 +66,11 @@ ParseClauses(r) ==
 
 \* third cycle: the second text, re-read and exported again, is the second text (IDs under the renumbering of
 \* that cycle) - a writer whose output depends on how the re-read objects were built does not settle
-Zip(a, b) == {<<a[j], b[j]>> : j \in 1..Min2(Len(a), Len(b))}
+ZipIds(a, b) == {<<a[j], b[j]>> : j \in 1..Min2(Len(a), Len(b))}
 Cycle3(r) ==
     IF r.c3.status = "none" THEN {}
     ELSE IF r.c3.status = "error" THEN {"cycle3.parse"}
-    ELSE LET ps == [k \in {"ent", "solid", "side", "vis", "group"} |-> Zip(r.c3.idl2[k], r.c3.idl3[k])]
+    ELSE LET ps == [k \in {"ent", "solid", "side", "vis", "group"} |-> ZipIds(r.c3.idl2[k], r.c3.idl3[k])]
          IN  {"cycle3." \o c : c \in IdClauses(r.opts, ps) \cup TextClauses(ps, r.toks2, r.c3.toks3, FALSE)}
 
 Clauses(r) == CASE r.k = "step" -> StepClauses(r)
